@@ -131,6 +131,14 @@ def check(case, rec):
         return check_daqmx_graph(case, rec)
     if 'sensor' in case:
         return check_sensor(case, rec)
+    if 'long_n' in case:
+        # a long channel given by a formula (lengths on and next to powers of two: blocked evaluation paths)
+        n = case['long_n']
+        vals = ((np.arange(n, dtype=np.int64) * 7919) % 2001 - 1000)
+        arr = (vals * 0.125).astype(np_dtype(case['type'])) if case['type'] in ('f32', 'f64') else \
+            (vals % 120).astype(np_dtype(case['type']))
+        case = dict(case, segs=[[arr.tobytes()]])
+        rec.label('long_channel', 'length=%d' % n)
     fs, graph = build_file(case)
     t = case['type']
     raw = np.frombuffer(b''.join(b''.join(c) for c in case['segs']), dtype=np_dtype(t))
@@ -386,13 +394,24 @@ def check_sensor(case, rec):
         rec.violation('elementwise:lazy', '%s on %s: window differs from slice of the scaled data' % (case['sensor'], t))
 
 
+@st.composite
+def long_cases(draw):
+    t = draw(st.sampled_from(['i16', 'f32', 'f64', 'u8']))
+    n = 2 ** draw(st.integers(10, 17)) + draw(st.sampled_from([-1, 0, 1]))
+    return {'type': t, 'graph': draw(SC.scale_graph(t, max_scales=3)), 'level': 'channel', 'other': None, 'status': None,
+            'with_count': True, 'other_count': True, 'long_n': n, 'order': 'parents_first', 'be': draw(st.booleans())}
+
+
 def jobs(tier):
     if tier == 'quick':
         return [Job('scale_graphs', 'hyp', lambda: cases(), n=4000),
+                Job('long_channels', 'hyp', long_cases, n=160,
+                    note='channels of 2^10 .. 2^17 (+-1) values through graphs of 1-3 scales'),
                 Job('daqmx_scaler_inputs', 'hyp', daqmx_graph_cases, n=800, check=check_daqmx_graph),
                 Job('sensor_scalings_leave_raw_data_alone', 'enum', sensor_cases(), exhaustive=True, check=check_sensor,
                     note='12 sensor scalings x 3 raw types x 2 lengths: repeatable, lazy==eager, raw untouched')]
     return [Job('scale_graphs', 'hyp', lambda: cases(), n=120000),
+            Job('long_channels', 'hyp', long_cases, n=4000),
             Job('with_noop_scales', 'hyp', lambda: cases(noop=True), n=30000),
             Job('daqmx_scaler_inputs', 'hyp', daqmx_graph_cases, n=30000, check=check_daqmx_graph),
             Job('sensor_scalings_leave_raw_data_alone', 'enum', sensor_cases(), exhaustive=True, check=check_sensor,
